@@ -23,7 +23,7 @@ ASSUMPTIONS = ["the OS entropy source returns independent values (distinctness o
                "statement, collision chance 2^-96 per pair; model checking decides the program's part, not the probability)",
                "cryptography AESGCM for the independent decryption"]
 BOUNDS = {"quick": "histories depth 3 (26^3) with owned entropy, depth 2 with real entropy; 8 fresh interpreters; 1000-step history",
-          "thorough": "histories depth 4 (26^4) x {owned, real}; 64 fresh interpreters; 2*10^4-step history; 10^5 steps over 16 interpreters"}
+          "thorough": "histories depth 4 (26^4) with owned entropy, depth 3 with real entropy; 64 fresh interpreters; 2*10^4-step history; 10^5 steps over 16 interpreters"}
 
 PT = {"A": plaintext(100, 1), "B": plaintext(33, 2), "E": b""}
 ALPHABET = [(p, o, e, k) for p in ("A", "B", "E") for o in ("reuse", "new") for e in ("lib", "main") for k in ("aes", "aes_b")] + \
@@ -261,7 +261,7 @@ REAL_DEPTH = [2]
 
 def plan(tier):
     q = tier == "quick"
-    REAL_DEPTH[0] = 2 if q else 4
+    REAL_DEPTH[0] = 2 if q else 3
     st = [
         BfsStage("histories", hist_init, hist_step, max_depth=3 if q else 4, dedupe=False,
                  rule="encryption histories over a 24-letter alphabet, owned and real entropy"),
